@@ -174,6 +174,12 @@ impl AsRef<[u8]> for FlakyOwner {
     }
 }
 
+/// read every byte of a result: exposing uninitialised memory is only visible (to Miri) when it is read
+fn touch(b: &[u8]) {
+    let s: u32 = b.iter().map(|&x| x as u32).sum();
+    std::hint::black_box(s);
+}
+
 pub const N_ENTRY: usize = 30;
 
 /// Drive one consumer with a lying implementation. Returns a name for coverage.
@@ -201,7 +207,8 @@ pub fn consumer(entry: usize, plan: &Plan, aux: usize) -> &'static str {
         }
         3 => {
             let mut l = lying();
-            let _ = l.copy_to_bytes(aux % 40);
+            let r = l.copy_to_bytes(aux % 40);
+            touch(&r);
             "copy_to_bytes-default"
         }
         4 => {
@@ -239,14 +246,14 @@ pub fn consumer(entry: usize, plan: &Plan, aux: usize) -> &'static str {
         9 => {
             let mut v: Vec<u8> = Vec::with_capacity(aux % 8);
             v.put(lying());
-            let _ = v.len();
+            touch(&v);
             "put-into-vec"
         }
         10 => {
             let mut m = BytesMut::with_capacity(aux % 8);
             m.put(lying());
             let b = m.freeze();
-            let _ = b.len();
+            touch(&b);
             "put-into-bytesmut"
         }
         11 => {
@@ -304,7 +311,7 @@ pub fn consumer(entry: usize, plan: &Plan, aux: usize) -> &'static str {
             let s = b.slice(..b.len() / 2);
             let _ = (c.len(), s.len());
             let v: Vec<u8> = b.into();
-            let _ = v.len();
+            touch(&v);
             "from_owner-flaky"
         }
         20 | 21 | 22 | 23 => {
@@ -321,22 +328,23 @@ pub fn consumer(entry: usize, plan: &Plan, aux: usize) -> &'static str {
                 20 => {
                     let mut m = BytesMut::with_capacity(2);
                     m.extend(it);
-                    let _ = m.len();
+                    touch(&m);
                     "extend-u8"
                 }
                 21 => {
                     let b: Bytes = it.collect();
-                    let _ = b.len();
+                    touch(&b);
                     "bytes-from_iter"
                 }
                 22 => {
                     let m: BytesMut = it.collect();
-                    let _ = m.len();
+                    touch(&m);
                     "bytesmut-from_iter"
                 }
                 _ => {
                     let mut m = BytesMut::new();
                     m.extend(it.map(|b| Bytes::from(vec![b; (b % 5) as usize])));
+                    touch(&m);
                     "extend-bytes"
                 }
             }
@@ -435,7 +443,9 @@ pub fn faults(a: &Args, o: &mut Obs) {
     };
     // exhaustive: entry x first lying call <= 6 x lie kind (12 codes cover every variant of every method)
     let mut k = 0usize;
-    for entry in 0..N_ENTRY {
+    let efrom = a.usize("entry-from", 0);
+    let eto = a.usize("entry-to", N_ENTRY);
+    for entry in efrom..eto.min(N_ENTRY) {
         for call in 0..7u32 {
             for code in 0..12u8 {
                 for vect in 0..3u8 {
@@ -450,7 +460,8 @@ pub fn faults(a: &Args, o: &mut Obs) {
                         continue;
                     }
                     let plan = Plan { lies: vec![(call, code)], budget: 400, len: 10 + (k % 23), vect_lie: vect };
-                    let aux = k * 7 + seed as usize;
+                    // entries 19..=23 (owner / iterators) ignore the lie plan: walk their own variants instead
+                    let aux = if (19..=23).contains(&entry) { (call as usize * 12 + code as usize) + 30 * (seed as usize % 3) } else { k * 7 + seed as usize };
                     run_one(o, entry, plan, aux, format!("flt:x:{k}"));
                 }
             }
